@@ -82,6 +82,37 @@ fn main() {
             (chk.run)(&mut ctx);
             println!("{}", ctx.total_cases());
         }
+        "find" => {
+            // development aid: zverif find <Cxx> <tier> <substring> [max]
+            let chk = checks::find(&args[2]).expect("prop");
+            let tier = tier_of(&args[3]);
+            let max = args.get(5).and_then(|s| s.parse().ok()).unwrap_or(10);
+            let mut ctx = Ctx::new(chk.info.prop, tier, Mode::Find { pat: Box::leak(args[4].clone().into_boxed_str()), max }, std::ptr::null_mut());
+            (chk.run)(&mut ctx);
+        }
+        "multi" => {
+            // development aid: zverif multi <Cxx> <tier> <idx,idx,...>: these cases in one process (state carried over)
+            let chk = checks::find(&args[2]).expect("prop");
+            let tier = tier_of(&args[3]);
+            let set: Vec<u64> = args[4].split(',').map(|x| x.parse().unwrap()).collect();
+            let mut ctx = Ctx::new(chk.info.prop, tier, Mode::Multi { set: Box::leak(set.into_boxed_slice()) }, std::ptr::null_mut());
+            (chk.run)(&mut ctx);
+            for v in &ctx.violations {
+                println!("VIOLATED #{}: {}", v.idx, v.msg);
+            }
+        }
+        "single" => {
+            // development aid: zverif single <Cxx> <tier> <idx>
+            let chk = checks::find(&args[2]).expect("prop");
+            let tier = tier_of(&args[3]);
+            let idx: u64 = args[4].parse().unwrap();
+            let mut ctx = Ctx::new(chk.info.prop, tier, Mode::Single { idx }, std::ptr::null_mut());
+            (chk.run)(&mut ctx);
+            println!("{}", if ctx.violations.is_empty() { "held" } else { "VIOLATED" });
+            for v in &ctx.violations {
+                println!("  {}", v.msg);
+            }
+        }
         "replay" => {
             let s = std::fs::read_to_string(&args[2]).expect("replay file");
             let v: serde_json::Value = serde_json::from_str(&s).expect("replay json");
